@@ -38,11 +38,32 @@ CtorClauses(r) ==
   << <<"outcome", r.out = o>>,
      <<"usable", o = "ok" /\ ~nop => r.fin /\ r.insp>> >>
 
+\* One SetScale call (kc = 7: the scale argument omitted) on an object built with a scale that no call writes (k0c).
+\* "unch": every inspector and the outputs of Forward / Reverse at fixed points are bit for bit what they were before the call.
 SetsClauses(r) ==
   LET o == SetScaleOutcome(r.fam, r.pol, r.lat, r.kc) IN
-  << <<"outcome", r.out = o>>,
+  << <<"codes", r.kc \in KCallCodes /\ r.k0c \in KObjCodes>>,
+     <<"outcome", r.out = o>>,
      <<"scale", o = "ok" => Le(r.ksr, TolK)>>,
-     <<"unchanged", o = "throw" => r.unch>> >>
+     <<"unchanged", o = "throw" => r.unch>>,
+     <<"origin", r.lat0b>>,                                              \* SetScale never moves the latitude of origin
+     <<"central", Le(r.kcr, TolK)>> >>                                   \* CentralScale stays "the scale on the latitude of origin"
+
+\* A path of SetScale calls on one object (ConicSym: ScaleAfter).  After every call: the outcome is the specification's; a call
+\* that throws leaves the whole observable state as it was; the scale in force is the one prescribed by the last call that
+\* returned (at its latitude, to TolK) or, if none did, the object is bit for bit the freshly constructed one.
+SeqClauses(r) ==
+  LET n == Len(r.calls)
+      Out(i) == SetScaleOutcome(r.fam, r.pol, <<r.calls[i][1], r.calls[i][2]>>, r.calls[i][3])
+  IN
+  << <<"shape", n >= 1 /\ Len(r.eff) = n /\ Len(r.out) = n /\ Len(r.unch) = n /\ Len(r.lat0b) = n /\ Len(r.efr) = n /\ Len(r.kcr) = n
+                /\ r.k0c \in KObjCodes /\ \A i \in 1..n : Len(r.calls[i]) = 3 /\ r.calls[i][3] \in KCallCodes>>,
+     <<"outcome", \A i \in 1..n : r.out[i] = (IF Out(i) = "ok" THEN 1 ELSE 0)>>,
+     <<"effective", \A i \in 1..n : r.eff[i] = ScaleAfter(r.fam, r.pol, r.calls, i)>>,
+     <<"unchanged", \A i \in 1..n : Out(i) = "throw" => r.unch[i] = 1>>,
+     <<"origin", \A i \in 1..n : r.lat0b[i] = 1>>,
+     <<"scale", \A i \in 1..n : Le(r.efr[i], TolK)>>,
+     <<"central", \A i \in 1..n : Le(r.kcr[i], TolK)>> >>              \* CentralScale stays "the scale on the latitude of origin"
 
 \* Albers allowance (see CondMult); -1 = vacuous
 AlbAllow(r) == IF r.amp >= Big \/ r.cnd >= Big \/ r.amp < 0 \/ r.cnd < 0 THEN -1 ELSE CondMult * Max(r.amp, r.cnd)
@@ -62,7 +83,12 @@ SymClauses(r) ==
      \* both calls are Forward evaluations of the same point of the same projection: each within Tol
      <<"xy", Within(r.d, 2 * Tol, r, alb)>>,
      <<"gamma", Within(r.dgm, 2 * Tol, r, alb)>>,
-     <<"k", Within(r.dkk, 2 * Tol, r, alb)>> >>
+     <<"k", Within(r.dkk, 2 * Tol, r, alb)>>,
+     \* the group acts on the inverse mapping too: Reverse of the transformed image by the transformed object
+     <<"rfinite", r.rfin>>,
+     <<"rxy", Within(r.rd, 2 * Tol, r, alb)>>,
+     <<"rgamma", Within(r.rdg, 2 * Tol, r, alb)>>,
+     <<"rk", Within(r.rdk, 2 * Tol, r, alb)>> >>
 
 AncDesc(r) == [fam |-> r.fam, ct |-> r.ct, p1 |-> r.p1, p2 |-> r.p2, kc |-> r.kc]
 AncClauses(r) ==
@@ -75,7 +101,13 @@ AncClauses(r) ==
      <<"anchor", an \in Anchors(Canon(d), r.lat, r.dl)>>,
      <<"finite", r.out = "ok" /\ r.fin>>,
      \* gamma: radians, plus two ulps of an angle of up to 180 degrees
-     <<"value", Le(r.res, IF r.qty = "g" THEN 2 * Tol ELSE (IF sq THEN 2 ELSE 1) * Tol * mag)>> >>
+     <<"value", Le(r.res, IF r.qty = "g" THEN 2 * Tol ELSE (IF sq THEN 2 ELSE 1) * Tol * mag)>>,
+     \* Reverse of the image returns the k and gamma "at point" too: the same anchor binds them (at a pole the longitude, and
+     \* with it gamma, is not determined by the point)
+     <<"rfinite", r.rfin>>,
+     <<"rvalue", r.qty \in {"k", "kk"} \/ (r.qty = "g" /\ Abs(r.lat) # 90) =>
+                   Le(r.rres, IF r.qty = "g" THEN 2 * Tol ELSE (IF sq THEN 2 ELSE 1) * Tol * mag)>>,
+     <<"overloads", r.ovl>> >>
 
 EqvClauses(r) ==
   LET A == [fam |-> r.fa, ct |-> r.cta, p1 |-> r.a1, p2 |-> r.a2, kc |-> r.kc]
@@ -87,7 +119,11 @@ EqvClauses(r) ==
      <<"xy", Within(r.d, 2 * Tol, r, alb)>>,
      <<"k", Within(r.dk, 2 * Tol, r, alb)>>,
      <<"gamma", Within(r.dg, 2 * Tol, r, alb)>>,
-     <<"origin", Le(r.dl0, 2 * TolLat0) /\ Le(r.dk0, 2 * TolK)>> >>
+     <<"origin", Le(r.dl0, 2 * TolLat0) /\ Le(r.dk0, 2 * TolK)>>,
+     \* Reverse of the same point of the plane by the two objects
+     <<"reverse", Within(r.dr, 2 * Tol, r, alb)>>,
+     <<"rk", Within(r.drk, 2 * Tol, r, alb)>>,
+     <<"rgamma", Within(r.drg, 2 * Tol, r, alb)>> >>
 
 (* ----------------------------- law lines --------------------------------- *)
 \* LambertConformalConic.hpp: the origin / scale of a two-parallel projection are accurate "if dlat = abs(lat2 - lat1) <= 160
@@ -118,13 +154,33 @@ PtClauses(r) ==
       \* and x, y not so large that their admitted error (CondMult x amp, amp <= 1e-13 a in true distance) shows in the quotient:
       \* 16 x 1e-13 / (2 h) = 1.9e-7
       fd == Abs(r.latq) <= 89000000 /\ Abs(r.dlq) <= 179000000 /\ r.kq >= -2000000 /\ r.kq <= 2000000 /\ r.amp >= 0 /\ r.amp <= 100000
+      \* the point (the point returned by Reverse) is the pole at which the projection is polar: the only poles with a finite,
+      \* non-zero scale (elsewhere the true scale at a pole is 0 or infinite and Forward returns "large but finite" stand-ins)
+      polar1 == r.pol /\ r.cosq = 0 /\ ((r.sgn = 1) <=> (r.latq > 0))
+      polar2 == r.pol /\ r.cosq2 = 0 /\ ((r.sgn = 1) <=> (r.lat2q > 0))
+      gtol3 == IF r.gul3 >= 0 /\ r.gul3 < Big THEN 4 * r.gul3 ELSE 0
   IN
   << <<"fin", r.fin>>,                                                   \* "large but finite" also where the image is at infinity
      <<"rfin", r.rfin /\ r.rng>>,                                        \* Reverse: finite, lat in [-90,90], lon in [-180,180]
      <<"rt", wrap => Within(r.rt, 2 * Tol, r, alb)>>,                    \* Reverse o Forward, true distance
      <<"rtg", wrap => Within(r.rtg, 2 * Tol + gtol, r, alb)>>,           \* gamma, k of Reverse = gamma, k of Forward
      <<"rtk", wrap => Within(r.rtk, 2 * Tol, r, alb)>>,
+     \* PoleScale: the weight cos(lat) of the two laws above (d ln k / d lat ~ 1 / cos lat away from the centre of a polar aspect)
+     \* vanishes exactly at a pole.  Where the scale at the pole is finite and not zero (the polar aspects: PolarStereographic.hpp CentralScale
+     \* "is the scale at the pole"; the polar LCC; the azimuthal Albers) k is smooth there, the 10 nm position error does not show
+     \* in it, and the k that Reverse returns for the image of the pole is the k that Forward returned, to the scale accuracy.
+     <<"pole-k", polar1 => Le(r.rtk0, 2 * TolK)>>,
+     \* CentralScale is "the scale on the latitude of origin" (LCC, Albers) / "the scale at the pole" (PS): Reverse returning
+     \* exactly that latitude returns that scale (the latitude of origin is the latitude of minimum scale: d k / d lat = 0)
+     <<"origin-k", r.rk0 # -1 => Le(r.rk0, 2 * TolK)>>,
+     <<"ovl", r.ovf /\ r.ovr>>,                                          \* "Forward / Reverse without returning the convergence and scale"
      <<"tr", wrap => Within(r.tr, 2 * Tol, r, alb)>>,                    \* Forward o Reverse on an image point
+     \* gamma, k of Reverse = gamma, k of Forward at the point that Reverse returned (both "at point"); same weights; at a pole
+     \* of a polar aspect unweighted (PoleScale), gamma relative to the longitude that Reverse chose
+     <<"trg", wrap => Within(r.trg, 2 * Tol + gtol, r, alb)>>,
+     <<"trk", wrap => Within(r.trk, 2 * Tol, r, alb)>>,
+     <<"pole-rk", polar2 => Le(r.trk0, 2 * TolK)>>,
+     <<"pole-rg", polar2 => Le(r.trg0, 2 * Tol + gtol3)>>,
      <<"df", OrcOK(r) => Within(r.df, OrcTol(r), r, alb)>>,              \* the textbook closed form
      <<"dg", OrcOK(r) => Within(r.dg, OrcTol(r) + gtol, r, alb)>>,
      <<"dk", OrcOK(r) /\ r.dk # -1 => Within(r.dk, OrcTol(r), r, alb)>>,
@@ -171,14 +227,25 @@ LimClauses(r) ==
      <<"xy", def => Within(r.d, 2 * Tol, r, alb)>>,
      <<"k", def /\ r.dk # -1 => Within(r.dk, 2 * Tol, r, alb)>>,
      <<"gamma", Within(r.dg, 2 * Tol + gtol, r, alb)>>,
-     <<"reverse", Within(r.dr, 2 * Tol, r, alb)>> >>
+     <<"reverse", Within(r.dr, 2 * Tol, r, alb)>>,
+     \* gamma, k returned by Reverse of the polar LCC and of PolarStereographic for the same point (PoleScale at the pole)
+     <<"rk", r.drk # -1 => Within(r.drk, 2 * Tol, r, alb)>>,
+     <<"rgamma", r.drg # -1 => Within(r.drg, 2 * Tol + gtol, r, alb)>>,
+     <<"pole-rk", r.drk0 # -1 /\ r.cosq = 0 /\ r.np = (r.latq > 0) => Le(r.drk0, 2 * TolK)>> >>
 
 SsClauses(r) ==
   IF r.out = "ctor-throw" THEN << <<"ctor", FALSE>> >>
   ELSE IF r.out # "ok" THEN << <<"outcome", FALSE>> >>
   ELSE
-  LET alb == r.fam = "alb" IN
-  << <<"outcome", r.out = "ok">>,                                        \* lat in [-89.9, 89.9], k > 0: always admissible
+  LET alb == r.fam = "alb"
+      \* the pole at which the random object is polar, as ConicSym codes it
+      polc == IF r.fam = "ps" THEN "np" ELSE IF r.pol THEN (IF r.sgn = 1 THEN "np" ELSE "sp") ELSE "no"
+      bo == SetScaleOutcome(r.fam, polc, <<r.bcall[1], r.bcall[2]>>, r.bcall[3])
+  IN
+  << \* a call from the inadmissible classes first: the outcome is the specification's, a throw leaves the object untouched
+     <<"bad-outcome", r.bres = bo>>,
+     <<"bad-unchanged", bo = "throw" => r.bunch>>,
+     <<"outcome", r.out = "ok">>,                                        \* lat in [-89.9, 89.9], k > 0: always admissible
      <<"scale", Le(r.ksr, TolK)>>,                                       \* the scale at lat is k
      <<"origin", r.lat0b>>,                                              \* the latitude of origin is unchanged
      <<"ctor2", r.bout = "ok">>,
@@ -186,13 +253,13 @@ SsClauses(r) ==
      <<"rev", Within(r.eqr, 2 * Tol, r, alb)>>,
      <<"k", Le(r.eqk, 2 * TolK)>> >>
 
-SgClauses(r) == << <<"same", r.same>>, <<"insp", r.insp>> >>
+SgClauses(r) == << <<"same", r.same>>, <<"insp", r.insp>>, <<"ovl", r.ovl>> >>
 
 Clauses(r) ==
   CASE r.e = "ctor" -> CtorClauses(r) [] r.e = "sets" -> SetsClauses(r) [] r.e = "sym" -> SymClauses(r)
     [] r.e = "anc" -> AncClauses(r) [] r.e = "eqv" -> EqvClauses(r)
     [] r.e = "pt" -> PtClauses(r) [] r.e = "ob" -> ObClauses(r) [] r.e = "lim" -> LimClauses(r)
-    [] r.e = "ss" -> SsClauses(r) [] r.e = "sg" -> SgClauses(r)
+    [] r.e = "ss" -> SsClauses(r) [] r.e = "sg" -> SgClauses(r) [] r.e = "seq" -> SeqClauses(r)
     [] OTHER -> << <<"unknown-record", FALSE>> >>
 
 RECURSIVE FirstFail(_, _)
@@ -203,6 +270,7 @@ Expected(r) ==
     [] r.e = "sets" -> <<SetScaleOutcome(r.fam, r.pol, r.lat, r.kc)>>
     [] r.e = "sym" -> Rep(r.g, r.fam, r.s)
     [] r.e = "anc" -> <<Canon(AncDesc(r))>>
+    [] r.e = "seq" -> [i \in 1..Len(r.calls) |-> SetScaleOutcome(r.fam, r.pol, <<r.calls[i][1], r.calls[i][2]>>, r.calls[i][3])]
     [] OTHER -> <<>>
 
 Init == l = 1 /\ KitInit
